@@ -2,6 +2,7 @@
 import json, os
 from .. import core
 ID = "C04"
+SPEC_ORACLE = ['shake', 'bits', 'samplers', 'rounding']   # specification definitions used by Props/C04.lean are compared with hashlib / pyspec on every run
 SETS = ["lvl2", "lvl3", "lvl5", "ml_dsa_44", "ml_dsa_65", "ml_dsa_87"]
 API = {"lvl2": "dilithium2", "lvl3": "dilithium3", "lvl5": "dilithium5", "ml_dsa_44": "ml_dsa_44", "ml_dsa_65": "ml_dsa_65", "ml_dsa_87": "ml_dsa_87"}
 PK = {"lvl2": 1312, "lvl3": 1952, "lvl5": 2592, "ml_dsa_44": 1312, "ml_dsa_65": 1952, "ml_dsa_87": 2592}
